@@ -234,6 +234,29 @@ func ruleT3(c *Ctx) {
 	// SetHdr keeps the first header of a type: stores only when the slot is Missing()
 	if fd := c.Decls["HdrLst.SetHdr"]; fd != nil {
 		c.check(strings.Contains(c.src(fd.Body), ".Missing()"), "T3", "SetHdr:first-only", fd.Pos(), "a slot is written only while it is still missing (first header of the type wins)")
+		// ... and "missing" means exactly "no type recorded": the predicate reads the Type field only
+		if mf := c.SFuncs["Hdr.Missing"]; mf != nil {
+			okM, reads := true, 0
+			for _, b := range mf.Blocks {
+				for _, ins := range b.Instrs {
+					switch x := ins.(type) {
+					case *ssa.UnOp:
+						if x.Op == token.MUL {
+							reads++
+							fa, ok := x.X.(*ssa.FieldAddr)
+							if !ok || derefStruct(fa.X.Type()) == nil || derefStruct(fa.X.Type()).Field(fa.Field).Name() != "Type" {
+								okM = false
+							}
+						}
+					case *ssa.Call:
+						okM = false
+					}
+				}
+			}
+			c.check(okM && reads >= 1 && len(mf.Blocks) == 1, "T3", "Missing:type-only", mf.Pos(), "Hdr.Missing() is decided by the Type field alone (a parsed header with an empty value still occupies its first-of-type slot)")
+		} else {
+			c.fail("T3", "Missing:type-only", fd.Pos(), "Hdr.Missing not found")
+		}
 	}
 }
 
@@ -494,6 +517,98 @@ func ruleT5(c *Ctx) {
 	c.check(nTests >= 12, "T5", "tests", token.NoPos, fmt.Sprintf("%d end-of-header verdict tests, %d paths followed (frozen minimum 12 tests)", nTests, nPaths))
 }
 
+func vsStr(v VSet) string {
+	var out []string
+	for i := 0; i < 64; i++ {
+		if v&(1<<uint(i)) != 0 {
+			out = append(out, itoa(i))
+		}
+	}
+	return "{" + strings.Join(out, ",") + "}"
+}
+
+// T7: the empty line that ends the header block, decided from the extracted header-line automaton in its initial
+// state: a lone LF gives (i+1, empty) with no look-ahead and no callee; CR LF gives (i+2, empty); CR followed by any
+// other byte gives (i+1, empty); CR as the last byte may ask for more bytes; no other first byte yields "empty".
+func ruleT7(c *Ctx) {
+	r := fsmOf(c, "ParseHdrLine")
+	if r == nil || r.head == nil || r.capped {
+		c.fail("T7", "ParseHdrLine:fsm", token.NoPos, "state machine could not be extracted")
+		return
+	}
+	empty, _ := c.namedConstInt("ErrHdrEmpty")
+	mb, _ := c.namedConstInt("ErrHdrMoreBytes")
+	idx := fsmIndexName(r)
+	has := func(t fsmTrans, s string) bool {
+		for _, cd := range t.Conds {
+			if cd == s {
+				return true
+			}
+		}
+		return false
+	}
+	first := func(t fsmTrans) string {
+		// which first byte does this path assume? from the exact byte set if the code keeps the byte in a
+		// variable, else from the comparison conditions on the element load
+		if t.Bytes != nil && t.Bytes.count() == 1 {
+			switch t.Bytes.min() {
+			case '\n':
+				return "LF"
+			case '\r':
+				return "CR"
+			}
+		}
+		if t.Bytes != nil && t.Bytes.count() < 256 && !t.Bytes.has('\n') && !t.Bytes.has('\r') {
+			return "other"
+		}
+		switch {
+		case has(t, "+buf[*]==+13"):
+			return "CR"
+		case has(t, "!+buf[*]==+13") && has(t, "+buf[*]==+10"):
+			return "LF"
+		case has(t, "!+buf[*]==+13") && has(t, "!+buf[*]==+10"):
+			return "other"
+		}
+		return "?"
+	}
+	var init int64 = -1
+	for k, n := range r.spec.constName {
+		if strings.HasSuffix(n, "Init") {
+			init = k
+		}
+	}
+	nLF, nCR, nOther := 0, 0, 0
+	for _, t := range r.grouped(r.trans) {
+		if t.From != init {
+			continue
+		}
+		fb := first(t)
+		key := "hInit:" + fb + ":" + vsStr(t.Verd) + ":" + t.RetOffs
+		switch fb {
+		case "LF":
+			nLF++
+			ok := t.Exit == "return" && t.Verd.only(empty) && t.RetOffs == "+"+idx+"+1" && len(t.Calls) == 0
+			c.check(ok, "T7", key, t.RetPos, "a lone LF at the start of a line ends the header block at once: returns (index+1, empty), no callee, no look-ahead (got verdict "+vsStr(t.Verd)+" offset "+t.RetOffs+" calls "+strings.Join(t.Calls, ",")+")")
+		case "CR":
+			nCR++
+			ok := t.Exit == "return" && len(t.Calls) == 0 &&
+				((t.Verd.only(empty) && (t.RetOffs == "+"+idx+"+1" || t.RetOffs == "+"+idx+"+2")) || (t.Verd.only(mb) && t.RetOffs == "+"+idx))
+			c.check(ok, "T7", key, t.RetPos, "CR at the start of a line: (index+2, empty) with LF, (index+1, empty) otherwise, or more-bytes at the CR when it is the last byte (got verdict "+vsStr(t.Verd)+" offset "+t.RetOffs+")")
+		case "other":
+			nOther++
+			if t.Verd.has(empty) {
+				c.fail("T7", key, t.RetPos, "a first byte other than CR / LF yields the empty-line verdict")
+			}
+		default:
+			if t.Verd.has(empty) {
+				c.fail("T7", key, t.RetPos, "an empty-line verdict on a path whose first byte could not be classified")
+			}
+		}
+	}
+	c.ok("T7", "hInit:other", token.NoPos, fmt.Sprintf("none of the %d paths whose first byte is neither CR nor LF yields the empty-line verdict", nOther))
+	c.check(nLF >= 1 && nCR >= 3 && nOther >= 3, "T7", "hInit:paths", token.NoPos, fmt.Sprintf("initial-state paths by first byte: LF %d, CR %d, other %d (frozen minimum 1/3/3)", nLF, nCR, nOther))
+}
+
 func init() {
 	register(&PropDef{
 		ID: "C07",
@@ -502,6 +617,8 @@ func init() {
 			{"T2", "header-loop bookkeeping is unconditional: on verdict 0 of ParseHdrLine the type flag is set, the header is offered to the first-of-type table and N is incremented as top-level statements; the only conditional is the scratch-slot reset", ruleT2},
 			{"T3", "the flag word has a bit for every header type, HdrOther is the largest type, the first-of-type table has HdrOther-1 slots indexed Type-1 and keeps the first header of a type", ruleT3},
 			{"T5", "line-end accounting in every streaming caller: on every path from an end-of-header verdict of a line-end skipper (offset, line-end length, verdict) to a return with a completing verdict, the returned offset is that call's offset plus that call's line-end length (phis resolved by the edge taken), never a guessed length", ruleT5},
+			{"T6", "exact byte sets of the scanners header names and generic values are cut with (shared with C08-S5): skipTokenDelim, skipToken, skipWS, skipLine", func(c *Ctx) { scannerSets(c, "T6") }},
+			{"T7", "the empty line that ends the block, from the extracted ParseHdrLine automaton in its initial state: lone LF -> (index+1, empty) with no callee and no look-ahead; CR LF -> (index+2, empty); CR other -> (index+1, empty); CR as last byte may ask for more; no other first byte yields empty", ruleT7},
 			{"T4", "exact decision table of skipCRLF from byte sets at each return: CR LF advances 2, lone CR (next byte not LF) or lone LF advances 1, anything else does not advance", ruleT4},
 		},
 		Assumptions: []string{"classification table itself is C16"},
